@@ -26,6 +26,7 @@ type GameCfg struct {
 	Table   int      `json:"table"` // 0 standard ranking, 1 short-deck ranking
 	Hole    int      `json:"hole"`
 	Req     int      `json:"req"`
+	Burn    *int     `json:"burn,omitempty"` // Meta.BurnCount (default 1; the engine burns one card per street whatever it says)
 	Deck    []string `json:"deck,omitempty"`    // configured deck (default: the variant's full deck)
 	Shuffle []string `json:"shuffle,omitempty"` // deck order to play (default: whatever Start() shuffled)
 }
@@ -85,6 +86,9 @@ func (c GameCfg) options() *pf.GameOptions {
 	opts.HoleCardsCount = c.Hole
 	opts.RequiredHoleCardsCount = c.Req
 	opts.CombinationPowers = tableOf(c.Table)
+	if c.Burn != nil {
+		opts.BurnCount = *c.Burn
+	}
 	if c.Deck != nil {
 		opts.Deck = append([]string{}, c.Deck...)
 	} else {
@@ -374,7 +378,11 @@ func (h *hand) replay() interface{} {
 func (h *hand) viol(prop, kind, what string) { h.o.Violate(prop, kind, what, h.replay()) }
 
 func newGameArgs(c GameCfg, deck0, deck1 []string) []int64 {
-	args := []int64{c.Ante, c.DB, c.SB, c.BB, b2i(c.Limit == "pot"), int64(c.Hole), int64(c.Req), int64(c.Table), 1, int64(len(c.Bank))}
+	burn := int64(1)
+	if c.Burn != nil {
+		burn = int64(*c.Burn)
+	}
+	args := []int64{c.Ante, c.DB, c.SB, c.BB, b2i(c.Limit == "pot"), int64(c.Hole), int64(c.Req), int64(c.Table), burn, int64(len(c.Bank))}
 	for i := range c.Bank {
 		pos := c.positions(i)
 		has := func(x string) int64 {
@@ -579,6 +587,10 @@ func genCfg(rng *rand.Rand, i int) GameCfg {
 		c.Table = 1
 	}
 	c.Dealer = rng.Intn(n)
+	if rng.Intn(6) == 0 {
+		b := rng.Intn(4)
+		c.Burn = &b
+	}
 	c.DeadSB = n > 2 && rng.Intn(4) == 0
 	c.BB = int64(1 + rng.Intn(10))
 	c.SB = int64(rng.Intn(int(c.BB) + 1))
